@@ -3,7 +3,7 @@
     and using the cache, reproduces every file's contents, every directory, and every relative
     symlink target, and never modifies the source tree."
    This file holds only the statement, the property theorem and its non-vacuity examples. *)
-From PlzV Require Import Base.Harness Model.C34 Proof.C34 Proof.C34_Merge.
+From PlzV Require Import Base.Harness Gen.C34Copy Model.C34 Proof.C34 Proof.C34_Merge Proof.C34_Conc.
 
 Definition C34_statement : Prop :=
   (* RecursiveCopyOrLinkFile(from = a, to = b, mode, link, fallback) inside any directory w, for
@@ -259,3 +259,107 @@ Example C34_nonvacuous_spelling :
   /\ rel_of (s "sys//dir") (s "sys/dir") = None
   /\ rel_of (s "sys/dir/") (s "sys/dir") = None.
 Proof. vm_compute. repeat split. Qed.
+
+(* ------------------------------------------------------------------------------------------------
+   THE TEMPORARY FILE.  Every copied file (link = false, and the copy fallback of linking) is written
+   as a temporary SIBLING of its destination and renamed onto it.  How the sibling is named and opened
+   is translated from fs.go (Gen.write_file_temp -> temp_policy_now); the tree theorems above treat the
+   write as one atomic step (copy_file_atomic).  That is sound exactly because the name is one nobody
+   has - also not another file of the tree being copied. *)
+Definition C34_tempfile_statement : Prop :=
+  (* the policy the code has *)
+  temp_policy_now = TempUnique
+  (* EVERY directory, EVERY file name, EVERY unused temporary name: open-write-chmod-rename changes the
+     entry `x` and nothing else *)
+  /\ (forall (t : str) (m : N) (x c : str) (es : list (str * node)),
+        assoc t es = None -> t <> x ->
+        write_in_dir t TempUnique m x c es =
+        match f_rename (File 0 (eff m) c) (assoc x es) with
+        | ROk v => ROk (Dir (set x v es))
+        | r => r
+        end)
+  (* so CopyFile as it runs is the atomic step, at any depth, whatever the directories hold *)
+  /\ (forall (m : N) (p : path) (c : str) (d : dest), copy_file m p c d = copy_file_atomic m p c d)
+  (* whereas ANY fixed naming scheme pre ++ file ++ suf takes a sibling of that name away: its inode j (for
+     a hard-linked tree: the source's own inode) is emptied, filled with the other file and renamed *)
+  /\ (forall (pre suf : str) (m : N) (x c : str) (j pm : N) (c0 : str),
+        pre ++ x ++ suf <> x ->
+        write_in_dir (pre ++ x ++ suf) (TempFixed pre suf) m x c [(pre ++ x ++ suf, File j pm c0)]
+        = ROk (Dir [(x, File j (eff m) c)])).
+
+Theorem C34_tempfile : C34_tempfile_statement.
+Proof.
+  exact (conj temp_policy_unique (conj write_in_dir_unique (conj copy_file_refines fixed_temp_loses_sibling))).
+Qed.
+Print Assumptions C34_tempfile.
+
+(* Non-vacuity: a directory that holds `out` AND `.out.tmp` (and `out0...`): copied entry by entry with the
+   code's policy both survive; with the fixed name ".<file>.tmp" the sibling is gone and ITS inode (7) has
+   been written. *)
+Example C34_nonvacuous_tempfile :
+  let es := [ (s ".out.tmp", File 7 420 (s "lookalike")); (s "out", File 8 420 (s "old")) ]%N in
+  f_write temp_policy_now 292 (s "out") (s "new") (Some (Dir es))
+  = ROk (Dir [ (s ".out.tmp", File 7 420 (s "lookalike")); (s "out", File 0 292 (s "new")) ])%N
+  /\ f_write (TempFixed (s ".") (s ".tmp")) 292 (s "out") (s "new") (Some (Dir es))
+     = ROk (Dir [ (s "out", File 7 292 (s "new")) ])%N
+  /\ copy_top (recursive_copy 292) [ (s "src", Dir es) ] (s "src") (s "dst")
+     = Done (Dir [ (s ".out.tmp", File 0 292 (s "lookalike")); (s "out", File 0 292 (s "old")) ])%N.
+Proof. vm_compute. repeat split. Qed.
+
+(* ------------------------------------------------------------------------------------------------
+   COPIES RUNNING AT THE SAME TIME (a parallel build copies, links, stores and retrieves many trees at
+   once, one goroutine each).  godirwalk reads a directory into a buffer and then parses the names out of
+   it; whose buffer that is, is translated from the godirwalk.Options literal in walk.go
+   (Gen.walk_options -> buffer_shared).  Model: task-stack walkers in one world, ANY schedule. *)
+Definition C34_concurrent_statement : Prop :=
+  (* the code: a buffer per walk *)
+  buffer_shared = false
+  (* ANY number of copies into different destinations, ANY interleaving of their steps (a schedule is any
+     list of goroutine numbers): nothing but the destinations is ever touched; every walker and its
+     destination are what the walker ALONE reaches in as many steps as it was given; a finished walker has
+     the destination and the verdict of the sequential call (run_walk: the subject of C34_full/_existing) *)
+  /\ (forall (w : world) (buf0 : list str) (specs : list (cfg * str * node)) (sched : list nat),
+        NoDup (map dest_of specs) ->
+        Forall (fun sp => wfb (snd sp) = true) specs ->
+        let st := sys_run buffer_shared sched (Sys w buf0 (map start specs)) in
+        (forall x, ~ In x (map dest_of specs) -> assoc x (s_w st) = assoc x w)
+        /\ forall i k b src, nth_error specs i = Some (k, b, src) ->
+           exists wk, nth_error (s_ws st) i = Some wk
+             /\ (wk, assoc b (s_w st)) = solo_iter (count_occ Nat.eq_dec sched i) (start (k, b, src), assoc b w)
+             /\ (finished wk = true -> verdict (run_walk k (walk src) (assoc b w)) (wk, assoc b (s_w st))))
+  (* a walker does finish: after n of its own steps, n depending on its tree, flags and destination only *)
+  /\ (forall (k : cfg) (b : str) (src : node) (d : dest),
+        wfb src = true ->
+        exists n, forall m, n <= m ->
+          finished (fst (solo_iter m (start (k, b, src), d))) = true
+          /\ verdict (run_walk k (walk src) d) (solo_iter m (start (k, b, src), d)))
+  (* ONE buffer for all walks: there is a schedule after which a walker has finished WITHOUT an error and an
+     entry of its source is missing from its destination *)
+  /\ (exists (w : world) (specs : list (cfg * str * node)) (sched : list nat) (k : cfg) (a b : str) (full got : node),
+        NoDup (map dest_of specs) /\ Forall (fun sp => wfb (snd sp) = true) specs
+        /\ nth_error specs 0 = Some (k, b, full) /\ assoc a w = Some full
+        /\ copy_top k w a b = Done (map_files (file_result k) full)
+        /\ let st := sys_run true sched (Sys w [] (map start specs)) in
+           map finished (s_ws st) = map (fun _ => true) specs
+           /\ map w_st (s_ws st) = map (fun _ => Running) specs
+           /\ assoc b (s_w st) = Some got /\ covers full got = false).
+
+Theorem C34_concurrent : C34_concurrent_statement.
+Proof.
+  split; [exact buffer_private|]. split; [|split; [exact solo_walk|]].
+  - rewrite buffer_private. exact concurrent_result.
+  - exists ex_two, ex_specs, ex_sched, (recursive_copy 420), (s "s0"), (s "d0"),
+      (Dir [ (s "a", File 1 420 (s "A")); (s "b", File 2 420 (s "B")) ])%N, (Dir [ (s "a", File 0 420 (s "A")) ])%N.
+    split; [repeat constructor; cbn; intuition discriminate|].
+    split; [repeat constructor|]. vm_compute. repeat split.
+Qed.
+Print Assumptions C34_concurrent.
+
+Example C34_nonvacuous_concurrent :
+  let specs := ex_specs in
+  let st := sys_run buffer_shared [1; 0; 1; 0; 0; 1; 1; 0; 0; 1; 0; 0; 1; 0]%nat (Sys ex_two [] (map start specs)) in
+  NoDup (map dest_of specs) /\ map finished (s_ws st) = [true; true]
+  /\ assoc (s "d0") (s_w st) = Some (Dir [ (s "a", File 0 420 (s "A")); (s "b", File 0 420 (s "B")) ])%N
+  /\ assoc (s "d1") (s_w st) = Some (Dir [ (s "a", File 0 420 (s "X")) ])%N
+  /\ assoc (s "s0") (s_w st) = assoc (s "s0") ex_two.
+Proof. split; [repeat constructor; cbn; intuition discriminate|]. vm_compute. repeat split. Qed.
